@@ -250,6 +250,8 @@ type c08Run struct {
 	tpl  *crashPlanner // counts the twin's events
 
 	tw           []c08Res // twin's result per op
+	schedule     []c08Step // every delivery to the node under test, in order
+	triedSecond  bool
 	twinChain    []*types.Block
 	twinChainAll []*types.Block
 	twinEnumN    int64
@@ -544,8 +546,10 @@ func (x *c08Run) runBatch(lo, hi int) bool {
 	for i := lo; i < hi; i++ {
 		r := res[i-lo]
 		if !r.Done {
+			x.schedule = append(x.schedule, c08Step{Kind: "inflight", Op: i}) // started on the node, interrupted
 			break
 		}
+		x.schedule = append(x.schedule, c08Step{Kind: "op", Op: i})
 		if r.StableH > x.completedH {
 			x.completedH = r.StableH
 		}
@@ -598,7 +602,10 @@ func (x *c08Run) compare(i int, r c08Res) bool {
 	t := x.tw[i]
 	what := ""
 	switch {
-	case r.Verdict != t.Verdict:
+	case r.Verdict != t.Verdict && !(x.restarted && x.w.Ops[i].Kind == opConfirm):
+		// after a restart the statement speaks of blocks ("accepts the same subsequent blocks and computes the same
+		// hashes"): the wording of the answer to a confirmation packet (e.g. "confirms are enough" for a stable block
+		// whose stored confirmations a crash took away) is not compared; its effect on stable / head is
 		what = "verdict"
 	case r.Hash != t.Hash:
 		what = "block-hash"
@@ -618,6 +625,9 @@ func (x *c08Run) compare(i int, r c08Res) bool {
 	}
 	if what == "verdict" {
 		detail += "; node log: | " + strings.Join(takeErrors(x.nut.Tag), " | ")
+	}
+	if x.restarted && x.explainedBySecondDelivery(r, i) {
+		return false
 	}
 	if x.restarted {
 		x.inflightOp = i
@@ -806,7 +816,11 @@ func (x *c08Run) refeed(inflight int) bool {
 	if last.StableH > x.completedH {
 		x.completedH = last.StableH
 	}
+	x.schedule = append(x.schedule, c08Step{Kind: "refeed", List: list})
 	t := x.tw[inflight]
+	if (last.StableH != t.StableH || last.Stable != t.Stable || (w.Linear && (last.HeadH != t.HeadH || last.Head != t.Head))) && x.explainedBySecondDelivery(last, -1) {
+		return false
+	}
 	if last.StableH != t.StableH || last.Stable != t.Stable {
 		x.fail("diverges-after-restart/refeed-stable", "", "after re-feeding inputs 1..%d the restarted node is at stable %d/%s, the twin at %d/%s (restart was on stable %d); node log: %s; %s",
 			inflight, last.StableH, last.Stable.Hex()[:10], t.StableH, t.Stable.Hex()[:10], x.restartStable, strings.Join(takeErrors(x.nut.Tag), " | "), x.story())
@@ -818,6 +832,92 @@ func (x *c08Run) refeed(inflight int) bool {
 		return false
 	}
 	return true
+}
+
+// c08Step is one delivery to the node under test, in order: a completed op, an op that was interrupted by the
+// crash, or the re-feed of forgotten inputs after a restart.
+type c08Step struct {
+	Kind string // op, inflight, refeed
+	Op   int
+	List []*c08Op
+}
+
+// explainedBySecondDelivery: the restarted node has been given inputs a SECOND time (the re-feed of what it
+// legitimately forgot), the recorded twin saw every input once. Whether a block is accepted can depend on what is
+// stable when it is offered (a block of a term whose snapshot block is not stable yet is refused and accepted when
+// offered again later), so a difference from the once-fed twin is not yet a difference from "a node that never
+// stopped". This runs a never-stopped reference that receives exactly the deliveries the node under test received
+// (with and without the op the crash interrupted) and compares the result of the last delivery. If one of them
+// agrees, the run ends there without a verdict (probe); otherwise the caller reports the violation.
+func (x *c08Run) explainedBySecondDelivery(nutRes c08Res, uptoOp int) bool {
+	c, w := x.c, x.w
+	if x.triedSecond {
+		return false
+	}
+	x.triedSecond = true
+	prev := c.W.S.IOHook
+	defer func() { c.W.S.IOHook = prev }()
+	for v, skipInflight := range []bool{false, true} {
+		tag := 3 + v
+		c.W.S.IOHook = func(ev *simrt.IOEvent) simrt.IOAction {
+			if ev.Node == tag {
+				return simrt.IOAction{}
+			}
+			if prev != nil {
+				return prev(ev)
+			}
+			return simrt.IOAction{}
+		}
+		nd := w.Net.AddNode(tag, fmt.Sprintf("twin2%c", 'a'+v), detKey(fmt.Sprintf("observer-twin2%c", 'a'+v)))
+		if !nd.StartNode() {
+			c.Probe("second_delivery_reference_failed")
+			continue
+		}
+		end := len(x.schedule)
+		var lastOp *c08Op
+		if uptoOp >= 0 {
+			lastOp = w.Ops[uptoOp]
+			for k, st := range x.schedule {
+				if st.Kind == "op" && st.Op == uptoOp {
+					end = k + 1
+				}
+			}
+		}
+		var last c08Res
+		done := nd.Do("second-delivery", func() {
+			for _, st := range x.schedule[:end] {
+				switch st.Kind {
+				case "op":
+					last = w.apply(nd, w.Ops[st.Op])
+				case "inflight":
+					if !skipInflight {
+						last = w.apply(nd, w.Ops[st.Op])
+					}
+				case "refeed":
+					for _, op := range st.List {
+						last = w.apply(nd, op)
+					}
+				}
+			}
+		})
+		nd.StopNode()
+		if !done || len(x.newPanics(tag)) > 0 {
+			c.Probe("second_delivery_reference_failed")
+			continue
+		}
+		same := last.StableH == nutRes.StableH && last.Stable == nutRes.Stable && last.Hash == nutRes.Hash && last.Read == nutRes.Read
+		if w.Linear && (last.HeadH != nutRes.HeadH || last.Head != nutRes.Head) {
+			same = false
+		}
+		if lastOp != nil && lastOp.Kind != opConfirm && last.Verdict != nutRes.Verdict {
+			same = false
+		}
+		if same {
+			c.Probe("difference_from_twin_explained_by_second_delivery")
+			return true
+		}
+	}
+	return false
 }
 
 // finish records evidence for the run.
